@@ -126,6 +126,9 @@ func (s *RelationshipPatternVisitor) EnterOC_RangeLiteral(ctx *parser.OC_RangeLi
 				state = stateSecondIndex
 				sawRange = true
 
+			case parser.CypherLexerSP:
+				// whitespace and comments are part of oC_RangeLiteral in the grammar
+
 			default:
 				s.ctx.AddErrors(fmt.Errorf("unexpected token in pattern range: %s", typedTokenLeaf.GetText()))
 			}
